@@ -151,6 +151,19 @@ CLAIMED['C12'] = ('other',
     'abstract interpretation under validate()\'s post-condition',
     'DESIGN.md section C12')
 
+CLAIMED['C16'] = ('other',
+    'Decided part of the property: sibling agreement of the GS1-128 encoder, decoder, length and padding rules over every distinct '
+    '(format, type) pair of gs1_ai.dat (type branches in both codecs, date formats named by the encoder, pair formats decoded as '
+    'pairs, decimal format shape, _max_length() defined - its extracted expression is evaluated per pair -, zero padding only where '
+    'the decoder ignores leading zeros and blank padding only where it strips), the framing rule of encode() (every non-last '
+    'variable-length value unconditionally followed by the separator or padded to maximum length, fixed values first, same fnc1 test '
+    'as info()), the value handed to the decoder is a slice of the element string, validate() is encode(info(x, sep), sep) in the '
+    'catch-all. These are necessary conditions of the round trip; equality of the decoded mapping itself is not decided.',
+    'Trusted: CPython ast, sa/minieval.py. Known findings: formats N6+[-] (AIs 4330-4333) and Z..90 (8030) are not understood by '
+    '_max_length().',
+    'sibling cross-check of codec functions over the registry\'s (format, type) pairs + dataflow/shape rules',
+    'DESIGN.md section C16')
+
 NOT_APPLICABLE = {
 }
 
